@@ -176,7 +176,7 @@ class Run:
 
 
 def explore(make, script_of, bound, judge, res, case, only=None, max_execs=None, point_hook=None,
-            closing_ticks=8):
+            closing_ticks=8, shard=None):
     '''make() -> fresh System after set-up; script_of(system) -> script; judge(run) -> list of
     (key, detail).  Explores every choice vector whose total deviation cost is <= bound; with
     only=<choices> re-executes exactly that vector (replay).'''
@@ -188,12 +188,16 @@ def explore(make, script_of, bound, judge, res, case, only=None, max_execs=None,
         try:
             run = Run(s, script_of(s), point_hook=point_hook, closing_ticks=closing_ticks)
             run.run(prefix)
-            failures = judge(run)
+            if shard and not prefix and shard[0] != 0:
+                failures = []       # the deviation-free execution is judged by shard 0
+            else:
+                failures = judge(run)
+                res.count('executions')
             execs += 1
-            res.count('executions')
-            res.count('choice_points', len(run.taken))
+            if not (shard and not prefix and shard[0] != 0):
+                res.count('choice_points', len(run.taken))
+                res.count(f'executions_with_{cost}_deviations')
             res.maxi('choice_points_in_one_execution', len(run.taken))
-            res.count(f'executions_with_{cost}_deviations')
             for i, c in enumerate(run.taken):
                 if c:
                     res.distinct('deviation_kinds', run.menus[i][c].split(':')[0])
@@ -210,6 +214,8 @@ def explore(make, script_of, bound, judge, res, case, only=None, max_execs=None,
             return
         taken = run.taken
         for i in range(len(prefix), len(taken)):
+            if shard and not prefix and i % shard[1] != shard[0]:
+                continue            # another shard explores the deviations starting here
             for alt in range(1, len(run.costs[i])):
                 c2 = cost + run.costs[i][alt]
                 if c2 <= bound:
